@@ -1,6 +1,6 @@
 #!/bin/bash
 # run every quick check under several seeds; any exit != 0 on the unchanged tree is a problem of ours
-cd /verif
+cd "$(dirname "$0")/.."
 for seed in "$@"; do
   for id in C01 C02 C03 C04 C05 C06 C07 C08 C09 C10 C11 C12 C13 C14 C15 C16 C17 C18 C19 C20; do
     out=$(VERIF_SEED=$seed VERIF_EVIDENCE_OUT=/tmp/soak-evidence.json ./check.sh $id quick 2>&1); code=$?
